@@ -104,6 +104,20 @@ def check(ctx, rep):
     XJ = ("attr", X, JF)
     cases = set()
     niter = 0
+    # the statements (loops) in which the cancel attempts are made: the sleep must be computed after them
+    cancel_loops = set()
+    for p in ps:
+        for c in p.calls():
+            if q.call_name(c) == "cancel" and isinstance(q.recv(c), tuple) and q.recv(c)[0] == "attr" and q.recv(c)[2] == fut_field:
+                open_ = []
+                for l in p.evs("loop"):
+                    if l.seq > c.seq:
+                        break
+                    if l.d[0] == "enter":
+                        open_.append(l.node)
+                    elif l.d[0] == "exit" and l.node in open_:
+                        open_.remove(l.node)
+                cancel_loops.update(id(n) for n in open_)
     for p in ps:
         if p.status not in ("loop", "return"):
             continue
@@ -160,6 +174,14 @@ def check(ctx, rep):
             for w in waits:
                 wt = w.d["args"][0] if w.d["args"] else ("const", None)
                 rep.ob("R-SLEEP", "loop: with kept jobs the wait is max(min(kept deadlines) - now, 0)", _sleep_ok(q.deref(p, wt), keep_d, dl_field), "wait(%s)" % fmt(wt), where_of(w.fn, w.node), trace_of(p, w.seq))
+                # `now` must be a reading taken after this iteration's cancel attempts (they run callbacks of
+                # arbitrary duration): a reading from before them makes the thread oversleep by that time
+                ck = _sleep_clock(q.deref(p, wt))
+                if ck is not None:
+                    rd = [e for e in p.calls() if q.result_of(e) == ck]
+                    after = [l.seq for l in p.evs("loop") if id(l.node) in cancel_loops and l.seq < w.seq] + [s0.seq]
+                    fresh = bool(rd) and all(rd[-1].seq > x for x in after) and rd[-1].seq < w.seq
+                    rep.ob("R-SLEEP", "loop: the sleep is computed from a clock reading taken after the cancel attempts", fresh, "the wait time subtracts a clock reading taken before this iteration's cancel attempts were made (the one used for the partition): the time they take is added to the sleep, so the next deadline is slept over by that much", where_of(w.fn, w.node), trace_of(p, w.seq))
         rep.ob("R-PARTITION", "loop: the clock is read once per iteration for the partition", len(set(e.node.lineno for e in clocks)) == 1, "clock read at %d places before the list is replaced" % len(set(e.node.lineno for e in clocks)), where_of(li.target))
     for p in ps:
         stores = [e for e in p.evs("store") if e.d["target"] == XJ]
@@ -215,6 +237,15 @@ def _contains_elem(keep, job):
     if isinstance(keep, tuple) and keep[0] == "bin" and keep[1] == "+":
         return _contains_elem(keep[2], job) or _contains_elem(keep[3], job)
     return False
+
+
+def _sleep_clock(wt):
+    """the clock reading subtracted in max(min(...) - <clock>, 0)"""
+    if isinstance(wt, tuple) and wt[0] == "call" and wt[1] == ("name", "max") and len(wt[2]) == 2:
+        for a in wt[2]:
+            if isinstance(a, tuple) and a[0] == "bin" and a[1] == "-" and is_clock(a[3]):
+                return a[3]
+    return None
 
 
 def _sleep_ok(wt, keep, dl_field):
